@@ -14,9 +14,14 @@ import math
 import operator
 import time
 
+import sys
+
 import numpy as np
 import numpy as _np_top
 import z3
+
+if hasattr(sys, "set_int_max_str_digits"):
+    sys.set_int_max_str_digits(0)  # solver models may carry rationals with thousands of digits
 
 __all__ = [
     "SR", "SB", "SymArray", "Engine", "engine", "set_engine", "HarnessError", "PathAbort",
@@ -875,6 +880,58 @@ def concretize(x, dtype=float):
 
 
 # --------------------------------------------------------------------------------------------
+# linear abstraction: products / quotients / powers of two non-constant terms become uninterpreted functions.
+# Every model of the exact formula is a model of the abstract one, so "abstract unsat" is a sound proof; it is
+# tried first because UF+linear arithmetic is decided in milliseconds where UF+nonlinear arithmetic may not return.
+
+_ABS_CACHE = {}
+_MULF = z3.Function("mul!", _REAL, _REAL, _REAL)
+_DIVF = z3.Function("div!", _REAL, _REAL, _REAL)
+_POWF = z3.Function("pow!", _REAL, _REAL, _REAL)
+
+
+def _is_znum(t):
+    return z3.is_rational_value(t) or z3.is_int_value(t)
+
+
+def abstract(t):
+    k = t.get_id()
+    hit = _ABS_CACHE.get(k)
+    if hit is not None and hit[0].eq(t):   # ids are recycled after garbage collection: keep the term alive
+        return hit[1]
+    if not z3.is_app(t) or t.num_args() == 0:
+        r = t
+    else:
+        ch = [abstract(c) for c in t.children()]
+        kind = t.decl().kind()
+        if kind == z3.Z3_OP_MUL:
+            nums = [c for c in ch if _is_znum(c)]
+            rest = sorted([c for c in ch if not _is_znum(c)], key=lambda c: c.get_id())
+            if len(rest) <= 1:
+                r = t.decl()(*ch) if len(ch) == t.num_args() else t
+            else:
+                acc = rest[0]
+                for c in rest[1:]:
+                    acc = _MULF(acc, c)
+                for c in nums:
+                    acc = c * acc
+                r = acc
+        elif kind == z3.Z3_OP_DIV:
+            r = (ch[0] / ch[1]) if _is_znum(ch[1]) else _DIVF(ch[0], ch[1])
+        elif kind == z3.Z3_OP_POWER:
+            r = _POWF(ch[0], ch[1])
+        else:
+            try:
+                r = t.decl()(*ch)
+            except Exception:
+                r = t
+    if len(_ABS_CACHE) > 300000:
+        _ABS_CACHE.clear()
+    _ABS_CACHE[k] = (t, r)
+    return r
+
+
+# --------------------------------------------------------------------------------------------
 # engine
 
 
@@ -884,8 +941,11 @@ class Engine:
     def __init__(self, timeout_ms=20000, max_paths=20000, seed=0):
         self.solver = z3.Solver()
         self.solver.set("timeout", timeout_ms)
+        self.asolver = z3.Solver()
+        self.asolver.set("timeout", min(timeout_ms, 5000))
         try:
             self.solver.set("random_seed", seed)
+            self.asolver.set("random_seed", seed)
         except Exception:
             pass
         self.timeout_ms = timeout_ms
@@ -915,13 +975,29 @@ class Engine:
         self.pos = 0
         self.stats["paths"] += 1
         self._axioms_seen = set()
+        self._axioms_alive = []
         self._fresh = {}
         self.solver.push()
+        self.asolver.push()
         self.in_path = True
 
     def end_path(self):
         self.solver.pop()
+        self.asolver.pop()
         self.in_path = False
+
+    def _add(self, fact):
+        self.solver.add(fact)
+        self.asolver.add(abstract(fact))
+
+    def _acheck(self, *assumptions):
+        """abstract (linearised) check: only 'unsat' answers are meaningful"""
+        t0 = time.time()
+        r = str(self.asolver.check(*[abstract(a) for a in assumptions]))
+        self.stats["solver_s"] += time.time() - t0
+        k = "abs_" + r
+        self.stats["queries"][k] = self.stats["queries"].get(k, 0) + 1
+        return r
 
     def _check(self, *assumptions):
         t0 = time.time()
@@ -949,11 +1025,15 @@ class Engine:
             d = self.prefix[self.pos]
         else:
             # invariant: the current path is feasible, so if one side is refuted the other one holds
-            rf = self._check_quick(z3.Not(c))
+            rf = self._acheck(z3.Not(c))
+            if rf != "unsat":
+                rf = self._check_quick(z3.Not(c))
             if rf == "unsat":
                 d = True
             else:
-                rt = self._check_quick(c)
+                rt = self._acheck(c)
+                if rt != "unsat":
+                    rt = self._check_quick(c)
                 if rt == "unsat":
                     d = False
                 else:
@@ -964,7 +1044,7 @@ class Engine:
                     d = True
         self.pos += 1
         self.log.append(d)
-        self.solver.add(c if d else z3.Not(c))
+        self._add(c if d else z3.Not(c))
         return d
 
     def fresh_id(self, kind):
@@ -974,15 +1054,16 @@ class Engine:
 
     # ---- facts
     def assume(self, cond):
-        self.solver.add(bterm(cond) if not z3.is_expr(cond) else cond)
+        self._add(bterm(cond) if not z3.is_expr(cond) else cond)
 
     def axiom(self, fact):
         k = fact.get_id()
         if k in self._axioms_seen:
             return
         self._axioms_seen.add(k)
+        self._axioms_alive.append(fact)
         self.stats["axioms"] += 1
-        self.solver.add(fact)
+        self._add(fact)
 
     def note_division(self, denom):
         d = z3.simplify(denom)
@@ -1007,6 +1088,8 @@ class Engine:
         if z3.is_true(c):
             self.stats["queries"]["unsat_by_simplifier"] = self.stats["queries"].get("unsat_by_simplifier", 0) + 1
             return "unsat"
+        if self._acheck(z3.Not(c)) == "unsat":
+            return "unsat"
         r = self._check(z3.Not(c))
         self._last_model = self.solver.model() if r == "sat" else None
         return r
@@ -1017,9 +1100,22 @@ class Engine:
             self._last_model = self.solver.model() if r == "sat" else None
             return r
         c = bterm(cond) if not z3.is_expr(cond) else cond
+        if self._acheck(c) == "unsat":
+            return "unsat"
         r = self._check(c)
         self._last_model = self.solver.model() if r == "sat" else None
         return r
+
+    def reach_check(self):
+        """is the current path feasible?  abstract 'unsat' is definitive; otherwise a short exact query; an
+        'unknown' is resolved by the concrete validation run of the same harness (a real witness)"""
+        if self._acheck() == "unsat":
+            return "unsat"
+        self.solver.set("timeout", 1500)
+        try:
+            return self._check()
+        finally:
+            self.solver.set("timeout", self.timeout_ms)
 
     def model(self):
         return self._last_model
